@@ -3893,6 +3893,9 @@ class AllConnGraph(nx.DiGraph):
 
         if units is not None:
             if src_units is None:
+                # a unitless source holds the number in the target's units (same as convert_get)
+                src_units = tgt_units
+            if src_units is None:
                 raise TypeError(f"Can't express value with units of '{src_units}' in units of "
                                 f"'{units}'.")
             elif src_units != units:
